@@ -342,7 +342,8 @@ func ruleRPM(p *Prog, r *Report) {
 			})
 		})
 		tk := ""
-		for k, ti := range c.terms {
+		for _, k := range c.termKeys() {
+			ti := c.terms[k]
 			if strings.HasPrefix(k, "HasPrefix(") && strings.Contains(k, `"~"`) && len(ti.base) == 1 {
 				tk = k
 			}
@@ -437,7 +438,8 @@ func digitsTableIf(p *Prog, digitFn *ssa.Function, keep func(c *aeCtx, w *world)
 	})
 	pk := "p0"
 	stripK, valK, errK := "", "", ""
-	for k, ti := range c.terms {
+	for _, k := range c.termKeys() {
+		ti := c.terms[k]
 		switch {
 		case strings.HasPrefix(k, "TrimLeft(") && strings.HasSuffix(k, `,"0")`) && len(ti.base) == 1:
 			stripK = k
